@@ -30,27 +30,30 @@ def C03_statement : Prop :=
   ∀ (e : Env) (y : Sys) (ops : List (Op × Bool)), y.global = 0 →
     (runWith e y ops).1 = (runWith e y (noCuts ops)).1 ∧ (runWith e y ops).2.st = (runWith e y (noCuts ops)).2.st
 
-/-- every operation other than the two staking messages neither reads nor writes the package
+/-- every operation other than the three staking messages neither reads nor writes the package
     variable: by construction of `step` (handlers are functions of `State`). -/
 theorem C03_nonstaking_independent (e : Env) (y : Sys) (g : Dec) (op : Op)
-    (h1 : ∀ c v a, op ≠ .delegate c v a) (h2 : ∀ c v a, op ≠ .undelegate c v a) (h3 : op ≠ .restart)
-    (h4 : ∀ i, op ≠ .sim i) :
+    (h1 : ∀ c v a, op ≠ .delegate c v a) (h2 : ∀ c v a, op ≠ .undelegate c v a) (h2r : ∀ c v w a, op ≠ .redelegate c v w a)
+    (h3 : op ≠ .restart) (h4 : ∀ i, op ≠ .sim i) :
     (step e y op).1 = (step e ⟨y.st, g⟩ op).1 ∧ (step e y op).2.st = (step e ⟨y.st, g⟩ op).2.st ∧
     (step e y op).2.global = y.global := by
   cases op <;> first
     | exact absurd rfl (h1 _ _ _)
     | exact absurd rfl (h2 _ _ _)
+    | exact absurd rfl (h2r _ _ _ _)
     | exact absurd rfl h3
     | exact absurd rfl (h4 _)
     | exact ⟨rfl, rfl, rfl⟩
 
 /-- the same for the consensus step alone (no `sim` case to exclude) -/
 theorem stepBase_nonstaking_global (e : Env) (y : Sys) (op : Op)
-    (h1 : ∀ c v a, op ≠ .delegate c v a) (h2 : ∀ c v a, op ≠ .undelegate c v a) (h3 : op ≠ .restart) :
+    (h1 : ∀ c v a, op ≠ .delegate c v a) (h2 : ∀ c v a, op ≠ .undelegate c v a) (h2r : ∀ c v w a, op ≠ .redelegate c v w a)
+    (h3 : op ≠ .restart) :
     (stepBase e y op).2.global = y.global := by
   cases op <;> first
     | exact absurd rfl (h1 _ _ _)
     | exact absurd rfl (h2 _ _ _)
+    | exact absurd rfl (h2r _ _ _ _)
     | exact absurd rfl h3
     | rfl
 
@@ -59,12 +62,13 @@ theorem stepBase_nonstaking_global (e : Env) (y : Sys) (op : Op)
 theorem C03_sim_commits_nothing (e : Env) (y : Sys) (inner : Op) :
     (step e y (.sim inner)).1 = .ok ∧ (step e y (.sim inner)).2.st = y.st := ⟨rfl, rfl⟩
 
-/-- … and it is completely invisible (process memory included) unless it executes one of the two
+/-- … and it is completely invisible (process memory included) unless it executes one of the three
     staking messages, the only operations that write the package variable (finding F06) -/
 theorem C03_sim_invisible (e : Env) (y : Sys) (inner : Op)
-    (h1 : ∀ c v a, inner ≠ .delegate c v a) (h2 : ∀ c v a, inner ≠ .undelegate c v a) (h3 : inner ≠ .restart) :
+    (h1 : ∀ c v a, inner ≠ .delegate c v a) (h2 : ∀ c v a, inner ≠ .undelegate c v a)
+    (h2r : ∀ c v w a, inner ≠ .redelegate c v w a) (h3 : inner ≠ .restart) :
     (step e y (.sim inner)).2 = y := by
-  have := stepBase_nonstaking_global e y inner h1 h2 h3
+  have := stepBase_nonstaking_global e y inner h1 h2 h2r h3
   cases y
   simp only [step] at *
   simp_all
